@@ -86,7 +86,19 @@ def _lattice_case(seed, mode='explicit'):
             run['skipped'] = 'explicit_timeout'; out['runs'].append(run); continue
         run['nderivs'] = len(want)
         if got != want:
-            run['missing'] = [x for x in want if x not in got][:2]; run['extra'] = [x for x in got if x not in want][:2]
+            # "the set of shaped trees": lark's trees are equal when their token types and texts agree — two derivations that differ only in WHERE an equal token sits
+            # (possible once an ignored terminal can swallow a token's text) are one tree and one packed family; a wanted derivation is missing only if no returned tree
+            # equals it up to token positions. Every returned tree must still be a lattice derivation with its own positions.
+            def strip(js):
+                def f_(x): return ['T', x[1], [f_(c) for c in x[2]]] if x[0] == 'T' else ['t', x[1], x[2]]
+                return json.dumps(f_(json.loads(js)))
+            got_np = {strip(x) for x in got}
+            missing = [x for x in want if x not in got and strip(x) not in got_np]
+            extra = [x for x in got if x not in want]
+            if missing or extra:
+                run['missing'] = missing[:2]; run['extra'] = extra[:2]
+            else:
+                run['derivations_equal_up_to_token_positions'] = True
         out['runs'].append(run)
     return out
 
